@@ -63,6 +63,9 @@ pub fn c01_shapes(thorough: bool, seed: u64) -> Vec<Shape> {
         Shape::new("app_data_between_and_after_commitments", &[Commit, Msg("between".into()), Commit, Msg("after".into()), AllocMul, Con], &[]),
         Shape::new("pending_allocation_across_two_closures", &[Commit, AllocMul], &[&[Chal, Alloc], &[Alloc, Con]]),
         Shape::new("two_different_closures", &[Commit, AllocMul, Con], &[&[Chal, Mul, Con], &[Chal, Msg("second".into()), AllocMul, AllocMul, Con]]),
+        // a constraint that names a committed variable before its commitment is made
+        Shape::new("constraint_ahead_of_its_commitment", &[Commit, AllocMul, ConAhead, Commit, Con], &[]),
+        Shape::new("gate_free_constraint_ahead_of_its_commitment", &[ConAhead, Commit, ConCommitted], &[]),
     ];
     if thorough {
         v.push(Shape::new("five_gates_pad8", &[Commit, AllocMul, AllocMul, Mul, Alloc, Alloc, Con], &[&[Chal, AllocMul, Con]]));
@@ -141,7 +144,7 @@ pub fn random_shape(rng: &mut rand_chacha::ChaChaRng, name: &str, max_pad: usize
 }
 
 fn n_explicit_cons(s: &Shape) -> usize {
-    let f = |ops: &[Op]| ops.iter().filter(|o| matches!(o, Con | ConConst | ConCommitted | ConSum | ConEmpty | ConTree(_, _) | ConTreeConst(_, _))).count();
+    let f = |ops: &[Op]| ops.iter().filter(|o| matches!(o, Con | ConConst | ConCommitted | ConSum | ConEmpty | ConAhead | ConTree(_, _) | ConTreeConst(_, _))).count();
     f(&s.phase1) + s.phase2.iter().map(|p| f(p)).sum::<usize>()
 }
 
